@@ -8,7 +8,7 @@ WS = [0x09, 0x0A, 0x0B, 0x0C, 0x0D, 0x20, 0x85, 0xA0, 0x1680] + list(range(0x200
 # look like separators but are not whitespace for Rust
 NOT_WS = [0x1C, 0x1D, 0x1E, 0x1F, 0x200B, 0x200C, 0x2060, 0xFEFF, 0x180E, 0x00]
 
-NUMBER_LIKE = ["+5", "-0", "1e5", ".5", "5.", "inf", "NaN", "Infinity", "2147483648", "0x10", "1_0", "-2147483648", "-2147483649",
+NUMBER_LIKE = ["000000000042", "-000000000007", "+00000000001", "0000000000000", "00000000002147483647", "000000000000.5", "CODE.FIRST", "CODE.REST", "+5", "-0", "1e5", ".5", "5.", "inf", "NaN", "Infinity", "2147483648", "0x10", "1_0", "-2147483648", "-2147483649",
                "2147483647", "+", "-", "+-1", "--1", "1+", "00012", "-007", "+0", "1.5e", "1e+", "e5", ".", "-.", "+.5", "5.e3", "1E-3",
                "nan", "-nan", "+inf", "-Infinity", "INF", "infinit", "1e400", "1e-400", "0.0005", "123.4565", "1,5", "١٢٣", "1٢",
                "99999999999999999999", "-99999999999999999999", "0.1e1", "1f", "1.0f32", "1i32", "٣", "1²", "1.", "0e0", "-0.0", "+0.0"]
@@ -150,7 +150,7 @@ def rand_soup(rng, instrs, n):
 
 
 # ---- items (wire form) ----
-PRINT_NAMES = ["POINT.X", "MY.VAR", "X.+", "x[3]", "a[", "in_f", "_7x", "A", "B", "x1", "foo", "a.b", "NOTANINSTRUCTION", "true", "é", "\U0001F600", "INT", "[1,2]", "(A", "1a", "_"]
+PRINT_NAMES = ["CODE.FIRST", "CODE.REST", "EXEC.REST", "POINT.X", "MY.VAR", "X.+", "x[3]", "a[", "in_f", "_7x", "A", "B", "x1", "foo", "a.b", "NOTANINSTRUCTION", "true", "é", "\U0001F600", "INT", "[1,2]", "(A", "1a", "_"]
 ODD_NAMES = ["5", "-3", "1.5", "TRUE", "FALSE", "(", ")", "INT[1]", "a b", "", " ", "inf", "nan", "1e5", "+", " ", "x　y", "INTEGER.+"]
 
 
